@@ -130,9 +130,11 @@ def gen_case(rng):
         s.well[0] = ("STRT", "M", idx[0], "START")
         s.well[1] = ("STOP", "M", idx[-1], "STOP")
     else:
-        s.well[0] = ("STRT", rng.choice(["M", "FT", ""]), rng.choice(["0", "12.5", idx[0]]), "START")
-        s.well[1] = ("STOP", rng.choice(["M", "FT"]), rng.choice(["999", "1.5"]), "STOP")
-    s.curves[0] = (s.curves[0][0], rng.choice(["M", "FT", "", "M"]), "", s.curves[0][3])
+        s.well[0] = ("STRT", rng.choice(["M", "FT", "", "m", "Ft"]), rng.choice(["0", "12.5", idx[0]]), "START")
+        s.well[1] = ("STOP", rng.choice(["M", "FT", "m", "fT"]), rng.choice(["999", "1.5"]), "STOP")
+    # units that differ from the ~Well ones only in letter case as well (round 7, C16_5: an alignment that compares
+    # case-insensitively leaves STRT.M next to DEPT.m)
+    s.curves[0] = (s.curves[0][0], rng.choice(["M", "FT", "", "M", "m", "ft"]), "", s.curves[0][3])
     if rng.random() < 0.4:
         s.params.append(("EMP", rng.choice(["DEGC", "M", ""]), "", "empty value"))
     if rng.random() < 0.3:
